@@ -245,6 +245,10 @@ func (w *mtWorkload) Next(block int) []rig.Tx {
 			if bal == nil {
 				bal = new(big.Int)
 			}
+			if rng.Intn(12) == 0 {
+				// the id with surrounding whitespace: it names no token (only minting trims its id)
+				tid = pick(rng, " "+tid, tid+" ", "\t"+tid+"  ")
+			}
 			if rng.Intn(3) == 0 {
 				amt, _ := w.amount(bal, t.Supply)
 				out = append(out, r.Mk(holder, &mtTag{Op: "burn"}, &mttypes.MsgBurnMT{Id: tid, DenomId: cid, Amount: amt, Sender: holder.Addr.String()}))
